@@ -823,6 +823,19 @@ Eval(e, env, log) ==
                        ELSE IF names = <<>> THEN R(<<"ctx", <<ArgFrame(rf.v[2])>> \o env>>, rf.log)
                        ELSE IF Len(names) # Len(rf.v[2]) THEN R(ErrV, rf.log)
                        ELSE R(<<"ctx", <<[i \in 1..Len(names) |-> <<names[i], rf.v[2][i]>>]>> \o env>>, rf.log)
+               ELSE IF f = "switch" THEN
+                    \* the legacy (v0.2) method  value.switch(c1 => v1, ...), registered by yaql.legacy contexts only: every case is
+                    \* one lazily evaluated argument - condition and value of a case are both evaluated (with $ = value), case by
+                    \* case, up to and including the first case whose condition is true; later cases are not evaluated
+                    LET RECURSIVE LSw(_, _)
+                        LSw(ps, lg) == IF ps = <<>> THEN R(Null, lg)
+                                       ELSE IF Head(ps)[1] # "pair" THEN R(<<"e", "unmodelled">>, lg)
+                                       ELSE LET fr == <<ArgFrame(<<r.v>>)>> \o env
+                                                c == Eval(Head(ps)[2], fr, lg)
+                                            IN IF IsErr(c.v) THEN c
+                                               ELSE LET v == Eval(Head(ps)[3], fr, c.log)
+                                                    IN IF IsErr(v.v) THEN v ELSE IF Truthy(c.v) THEN v ELSE LSw(Tail(ps), v.log)
+                    IN LSw(e[4], r.log)
                ELSE IF f = "switchCase" THEN
                     (IF r.v[1] # "i" THEN R(ErrV, r.log)
                      ELSE IF e[4] = <<>> THEN R(Null, r.log)
